@@ -1216,9 +1216,20 @@ jcBinOpPrint(JavaCodePContext ctxt, JavaCode code)
 	JavaCode lhs = jcoArgv(code)[0];
 	JavaCode rhs = jcoArgv(code)[1];
 
+	JavaCodeClass lClss = jcoClass(lhs);
+	JavaCodeClass rClss = jcoClass(rhs);
+	/* An operand of equal precedence on the side the operator does not
+	 * associate to must keep its parentheses: x - (10 - y). */
+	Bool lpar = thisClss->assoc == JCO_RL && lClss->prec == thisClss->prec;
+	Bool rpar = thisClss->assoc == JCO_LR && rClss->prec == thisClss->prec;
+
+	if (lpar) jcoPContextWrite(ctxt, "(");
 	jc0PrintWithParens(ctxt, thisClss, lhs);
+	if (lpar) jcoPContextWrite(ctxt, ")");
 	jcoPContextWrite(ctxt, thisClss->txt);
+	if (rpar) jcoPContextWrite(ctxt, "(");
 	jc0PrintWithParens(ctxt, thisClss, rhs);
+	if (rpar) jcoPContextWrite(ctxt, ")");
 }
 
 local void
